@@ -146,6 +146,96 @@ def scan_transfer(ctx, body, paths, guards):
               "scan loop rows %s do not cover newline, leading blank, first non-blank and later bytes" % sorted(seen_rows, key=str), fn_span(body), nontrivial=False)
 
 
+def scan_transfer_flag(ctx, body, paths, guards, flag):
+    """The scan loop in its flag form: state = (line start, `blank so far` flag).  Per byte: newline -> [record (start, idx) iff the flag is clear];
+    start := idx + 1; flag := set.  Any other byte: start unchanged, nothing recorded; a non-blank byte clears the flag, a blank byte leaves it.
+    At the end of input (start, len) is recorded iff the flag is clear.  With the flag set initially and start = 0, the invariant
+    `flag set <=> no non-blank byte since start; start = 1 + position of the previous newline` is inductive, and a range is recorded exactly for the
+    lines that contain a non-blank byte, with the exact bounds."""
+    R = "D3-TRANSFER"
+    inloop = [(bb, g) for bb, g in guards.items() if body.in_any_loop(bb)]
+    atend = [(bb, g) for bb, g in guards.items() if not body.in_any_loop(bb)]
+    if len(inloop) != 1 or len(atend) != 1:
+        ctx.violation(R, PFB, "sites", "expected one in-loop and one end-of-input recording site, found %d and %d" % (len(inloop), len(atend)), fn_span(body))
+        return
+    (ibb, (S, IDX, _, ie)), (ebb, (S2, E2, _, ee)) = inloop[0], atend[0]
+
+    def hl(t):
+        return t[1] if isinstance(t, tuple) and t and t[0] == "havoc" else None
+    start = hl(S)
+    ctx.check(start is not None and hl(S2) == start, R, PFB, "start-role", "both sites record (start, ..) with the same line-start variable",
+              "the two recording sites do not use one line-start variable (%s vs %s)" % (term_str(S), term_str(S2)), fn_span(body))
+    ctx.check(length_of(E2) is not None and length_of(E2) == ("param", 1), R, PFB, "end-of-input-bound", "(start, bytes.len())",
+              "the end-of-input site records %s as the line end, expected bytes.len()" % term_str(E2), body.span_of(ebb))
+    if start is None or hl(S2) != start:
+        return
+    header = next((h for h, blks in body.loops.items() if ibb in blks), None)
+    backs = [p for p in paths if p.end[0] == "back" and p.end[1] == header]
+    ctx.floor(R, PFB, "scan-loop back-edge paths", len(backs), 4)
+    item = IDX[1] if isinstance(IDX, tuple) and IDX[0] == "field" and IDX[2] == 0 else None
+    ctx.check(item is not None and bool(find_calls(item, "Enumerate<I> as std::iter::Iterator>::next")) and bool(find_calls(item, "[T]>::iter")) and mentions(item, lambda s: s == ("param", 1)),
+              R, PFB, "index-role", "the line end recorded in the loop is the enumerate() index over bytes.iter()",
+              "the in-loop line end %s is not the position of the current byte of `bytes`" % term_str(IDX), body.span_of(ibb))
+    if item is None:
+        return
+
+    def is_byte(t):
+        t = strip_refs(t)
+        while isinstance(t, tuple) and t and t[0] == "deref":
+            t = strip_refs(t[1])
+        return isinstance(t, tuple) and t and t[0] == "field" and t[2] == 1 and t[1] == item
+
+    def unchanged(p, l):
+        v = p.env.get(l)
+        return v is None or (isinstance(v, tuple) and v[0] == "havoc" and v[1] == l)
+    inits = {}
+    for p in backs:
+        for c in p.conds():
+            for x in subterms(c.term):
+                if x[0] == "havoc" and len(x) > 3 and x[1] in (start, flag):
+                    inits[x[1]] = x[3]
+    ctx.check(const_int(S[3]) == 0 if len(S) > 3 else False, R, PFB, "init:start", "starts at 0", "the line start does not start at 0", fn_span(body), nontrivial=False)
+    ctx.check(const_of(inits.get(flag)) is True, R, PFB, "init:flag", "the blank flag starts set", "the blank-so-far flag starts as %s" % term_str(inits.get(flag)), fn_span(body), nontrivial=False)
+    rows = set()
+    for p in backs:
+        nl = ws = fl = None
+        for c in p.conds():
+            t = c.term
+            truth = c.fact == ("eq", True)
+            if isinstance(t, tuple) and t[0] == "binop" and t[1] in ("Eq", "Ne") and ((is_byte(t[2]) and const_int(t[3]) == 10) or (is_byte(t[3]) and const_int(t[2]) == 10)):
+                nl = truth if t[1] == "Eq" else not truth
+            elif is_byte(t) and c.fact[0] in ("eq", "ne"):
+                nl = True if c.fact == ("eq", 10) else (False if c.fact[0] == "ne" and 10 in c.fact[1] else nl)
+            elif isinstance(t, tuple) and t[0] == "havoc" and t[1] == flag:
+                fl = truth
+            elif is_call(t, "is_ascii_whitespace") and is_byte(call_args(t)[0]):
+                ws = truth
+        pushed = any(ev_is(e, "Vec::push") and e.bb == ibb for e in p.events)
+        inst = "newline=%s,blank-so-far=%s,blank-byte=%s" % (nl, fl, ws)
+        rows.add((nl, ws))
+        sp_ = body.span_of(p.blocks[-2]) if len(p.blocks) > 1 else fn_span(body)
+        if nl is None:
+            ctx.violation(R, PFB, inst, "a scan-loop iteration does not test the current byte against '\\n'", sp_)
+            continue
+        sv = p.env.get(start)
+        fv = p.env.get(flag)
+        if nl:
+            ok = isinstance(sv, tuple) and sv[0] == "binop" and sv[1] == "Add" and sv[2] == IDX and const_int(sv[3]) == 1 and const_of(fv) is True and (pushed == (fl is False))
+            ctx.check(ok, R, PFB, inst, "record iff not blank; line start := idx + 1; flag := set",
+                      "after a newline: start=%s flag=%s recorded=%s (flag was %s)" % (term_str(sv), term_str(fv), pushed, fl), sp_)
+        elif ws is False:
+            ctx.check(unchanged(p, start) and const_of(fv) is False and not pushed, R, PFB, inst, "a non-blank byte clears the flag, start kept",
+                      "a non-blank byte leaves flag=%s start %s" % (term_str(fv), "moved" if not unchanged(p, start) else "kept"), sp_)
+        else:
+            ctx.check(unchanged(p, start) and unchanged(p, flag) and not pushed and ws is True, R, PFB, inst, "a blank byte changes nothing",
+                      "a byte that was not shown to be non-blank changes the state (flag=%s)" % term_str(fv), sp_)
+    ctx.check({(True, None)} <= {(r[0], None) for r in rows if r[0]} and (False, False) in rows and (False, True) in rows, R, PFB, "rows", "newline / blank byte / non-blank byte all handled",
+              "scan loop rows %s do not cover newline, blank and non-blank bytes" % sorted(rows, key=str), fn_span(body), nontrivial=False)
+    # the end-of-input site is reached only after the loop and records iff the flag is clear (its guard was identified by flag_guard)
+    ctx.ok("D3-LINE-GUARD", PFB, "in-loop:guarded", "recorded iff the blank-so-far flag is clear", body.span_of(ibb))
+    ctx.ok("D3-LINE-GUARD", PFB, "end-of-input:guarded", "recorded iff the blank-so-far flag is clear", body.span_of(ebb))
+
+
 def bytews_sites(ctx, fn, rule="D4-BYTEWS"):
     """calls of Unicode-aware char predicates on a value cast from u8"""
     paths = ctx.paths(fn)
@@ -624,6 +714,7 @@ def run(ctx):
     if paths:
         # D3 guards
         guards = {}
+        flag_guard = {}
         direct = set()
         LENP1 = ("call", "core::slice::<impl [T]>::len", ("u8",), (("param", 1),), None)
 
@@ -672,10 +763,24 @@ def run(ctx):
                             x = x[2]
                         k = (-off) if op == "Lt" else (1 - off)
                         atoms.append((x, k, c.bb))
+                if not atoms:
+                    # flag form: the site is guarded by `the line is not blank so far` kept in a bool (cleared by the first non-blank byte)
+                    for c in p.conds():
+                        if c.bb == e.bb:
+                            break
+                        if isinstance(c.term, tuple) and c.term[0] == "havoc" and body.f["locals"][c.term[1]]["ty"] == "bool" and c.fact == ("eq", False):
+                            flag_guard.setdefault(e.bb, set()).add(c.term[1])
                 guards[e.bb] = (S, E, atoms, e)
         ctx.floor("D3-LINE-GUARD", PFB, "line-recording sites", len(guards), 2)
+        flag_form = len(guards) == 2 and all(not g[2] for g in guards.values()) and len(flag_guard) == 2 and len(set.intersection(*flag_guard.values())) == 1
+        if flag_form:
+            scan_transfer_flag(ctx, body, paths, guards, next(iter(set.intersection(*flag_guard.values()))))
         shapes = []
-        for bb, (S, E, atoms, e) in sorted(guards.items()):
+        if flag_form:
+            guards_for_cmp = {}
+        else:
+            guards_for_cmp = guards
+        for bb, (S, E, atoms, e) in sorted(guards_for_cmp.items()):
             site = "in-loop" if body.in_any_loop(bb) else "end-of-input"
             ctx.check(len(atoms) >= 1, "D3-LINE-GUARD", PFB, "%s:guarded" % site, "%d guard atoms against the line end" % len(atoms),
                       "the %s recording site is not guarded by a comparison with the line end" % site, body.span_of(bb))
@@ -694,7 +799,8 @@ def run(ctx):
             ctx.check(ok_s, "D3-SIBLING", PFB, "cursor-test", "both sites test the non-blank cursor alike",
                       "the in-loop and end-of-input sites test the non-blank cursor differently (%s vs %s)" % (shapes[0], shapes[1]), fn_span(body))
         # D3 transfer table of the scan loop: the per-byte update of (line start, first-non-blank cursor, trimming flag)
-        scan_transfer(ctx, body, paths, guards)
+        if not flag_form:
+            scan_transfer(ctx, body, paths, guards)
         # D2 producer: entries = [PlistEntry::from_bytes(&bytes[s..e])? for (s, e) in recorded lines], in recording order; recognised as a push loop
         #              or as lines.into_iter().map(..).collect::<Result<Vec<_>>>()? (lib.accumulation)
         rec = {g[3].args[0][1][1] for g in guards.values() if isinstance(g[3].args[0], tuple) and g[3].args[0][0] == "refmut" and isinstance(g[3].args[0][1], tuple) and g[3].args[0][1][0] == "loc"}
